@@ -131,6 +131,10 @@ func (w *World) inlineRound(overlay map[string][]byte) (map[string][]byte, []str
 		// helpers calling helpers only: take the candidates that call no other candidate
 		return nil, nil, notes
 	}
+	// a local of the caller that hides a package-level name the helper's body uses is renamed first (a round of its own)
+	if ov, what := w.unshadowRound(layer, sites, overlay); ov != nil {
+		return ov, what, notes
+	}
 	edits := map[string][]textEdit{}
 	var done []string
 	serial := 0
@@ -1040,6 +1044,16 @@ func (w *World) inlineText(h *Func, s *inlineSite, serial int, overlay map[strin
 			if boolGuard {
 				return boolReturn(r, vals[0], false)
 			}
+			if len(vals) == 1 && len(lhs) > 1 && len(r.Results) == 1 {
+				// `return g(…)` forwarding several values: a tuple assignment
+				if _, isCall := ast.Unparen(r.Results[0]).(*ast.CallExpr); isCall {
+					op := tok
+					if len(preDecl) > 0 {
+						op = "="
+					}
+					return strings.Join(lhs, ", ") + " " + op + " " + vals[0] + "\n"
+				}
+			}
 			if len(vals) != len(lhs) {
 				failed = "result count mismatch"
 				return ""
@@ -1748,4 +1762,88 @@ func (w *World) inertFunc(f *Func) bool {
 		return true
 	})
 	return ok
+}
+
+
+// unshadowRound renames caller locals that would capture a package-level name used by a helper about to be substituted.
+func (w *World) unshadowRound(layer []*Func, sites map[*Func][]*inlineSite, overlay map[string][]byte) (map[string][]byte, []string) {
+	edits := map[string][]textEdit{}
+	var what []string
+	renamed := map[types.Object]string{}
+	for _, h := range layer {
+		info := h.Pkg.TypesInfo
+		free := map[string]types.Object{}
+		ast.Inspect(h.Decl.Body, func(n ast.Node) bool {
+			if id, ok := n.(*ast.Ident); ok {
+				if obj := info.Uses[id]; obj != nil && obj.Parent() == h.Pkg.Types.Scope() {
+					free[id.Name] = obj
+				}
+			}
+			return true
+		})
+		if len(free) == 0 {
+			continue
+		}
+		for _, s := range sites[h] {
+			cinfo := s.caller.Pkg.TypesInfo
+			taken := w.takenNames(s.caller)
+			var hit []types.Object
+			for id, obj := range cinfo.Defs {
+				if obj == nil || id.Pos() < s.caller.Decl.Pos() || id.End() > s.caller.Decl.End() {
+					continue
+				}
+				if _, isVar := obj.(*types.Var); !isVar || free[id.Name] == nil || obj.Parent() == nil || obj.Parent() == s.caller.Pkg.Types.Scope() {
+					continue
+				}
+				if _, seen := renamed[obj]; seen {
+					continue
+				}
+				// visible at the site, or defined by the site statement itself
+				if obj.Parent().Contains(s.call.Pos()) || (id.Pos() >= s.stmt.Pos() && id.End() <= s.stmt.End()) {
+					hit = append(hit, obj)
+				}
+			}
+			sort.Slice(hit, func(i, j int) bool { return hit[i].Pos() < hit[j].Pos() })
+			for _, obj := range hit {
+				nn := obj.Name() + "V"
+				for taken[nn] || s.caller.Pkg.Types.Scope().Lookup(nn) != nil {
+					nn += "V"
+				}
+				taken[nn] = true
+				renamed[obj] = nn
+				what = append(what, fmt.Sprintf("local %s of %s renamed to %s (it hides a package-level name used by helper %s)", obj.Name(), s.caller.Name, nn, h.Name))
+				tf, fname := w.fileOf(s.caller.Decl.Pos())
+				ast.Inspect(s.caller.Decl, func(n ast.Node) bool {
+					if id, ok := n.(*ast.Ident); ok && (cinfo.Defs[id] == obj || cinfo.Uses[id] == obj) {
+						edits[fname] = append(edits[fname], textEdit{tf.Offset(id.Pos()), tf.Offset(id.End()), nn})
+					}
+					return true
+				})
+			}
+		}
+	}
+	if len(edits) == 0 {
+		return nil, nil
+	}
+	out := map[string][]byte{}
+	for k, v := range overlay {
+		out[k] = v
+	}
+	for fname, es := range edits {
+		src := readSource(fname, overlay)
+		sort.Slice(es, func(i, j int) bool { return es[i].start < es[j].start })
+		var b []byte
+		last := 0
+		for _, e := range es {
+			if e.start < last {
+				continue
+			}
+			b = append(b, src[last:e.start]...)
+			b = append(b, e.text...)
+			last = e.end
+		}
+		b = append(b, src[last:]...)
+		out[fname] = b
+	}
+	return out, what
 }
